@@ -3,9 +3,9 @@ Require Import Value GenCache CacheModel CacheProofs.
 Import ListNotations.
 Local Open Scope Z_scope.
 
-(* C18: data cache: the ONLY uncaught exception any schedule can produce is FileNotFoundError from the os.remove inside
-   the except handler of DatabaseData.__init__ (another process removed the damaged file between exists() and remove()),
-   and only as long as that os.remove is unguarded in the source. *)
+(* C18: data cache: whatever the guard around it, the ONLY place where an exception could escape in any schedule is the
+   os.remove inside the except handler of DatabaseData.__init__ (FileNotFoundError: another process removed the damaged
+   file between exists() and remove()), and only if that os.remove is unguarded in the source. *)
 Theorem data_concurrent_except_known :
   forall (w : world) (c : content) (sched : list (nat * action)),
   data_admissible (w_cur w) (w_src w) c -> (forall k, c <> CPartial k) -> sched_ok sched ->
